@@ -18,7 +18,7 @@ STUB_KINDS = [
 ]
 CHAIN_KINDS = ["vhdx", "vmdk", "hdd", "qcow2", "qcow2snap", "vdi"]
 FIXTURE_DISKS = ["fixed.vhd", "dynamic.vhd", "fixed.vhdx", "dynamic.vhdx", "sesparse.vmdk", "expanding.hdd", "plain.hdd", "split.hdd"]
-OTHER = ["hyperv:test.vmcx", "hyperv:test.VMRS", "envelope", "keystore", "vmtar", "vmx"]
+OTHER = ["hyperv:test.vmcx", "hyperv:test.VMRS", "envelope", "envelope:noverify", "keystore", "vmtar", "vmx"]
 
 
 def _dense(cfg: dict) -> None:
@@ -307,7 +307,9 @@ def _build_other(name: str, world: World, b: Built):
 
         b.open = op
         b.use = lambda h: h.as_dict()
-    elif name == "envelope":
+    elif name in ("envelope", "envelope:noverify"):
+        # the second flavour opens with verify=False (a documented constructor option): what is refused at open does not
+        # depend on whether the tag will be checked later
         p = d + "/local.tgz.ve"
         f = world.fs.add(p, fixtures.simfile("local.tgz.ve"))
         world.fs.add(d + "/encryption.info", fixtures.simfile("encryption.info"))
@@ -340,7 +342,7 @@ def _build_other(name: str, world: World, b: Built):
         def op():
             from dissect.hypervisor.util.envelope import Envelope
 
-            return Envelope(world.handle(p))
+            return Envelope(world.handle(p)) if name == "envelope" else Envelope(world.handle(p), verify=False)
 
         def use(ev):
             from dissect.hypervisor.util.envelope import KeyStore
